@@ -95,3 +95,11 @@ PROPS["C07"] = dict(
     explanation="Range checks are proved for all inputs; the CKD equations, split/neuter/crack laws and SLIP132 prefixes are checked by bounded stand-ins (stated bounds) against an independent reference implementation - labelled bounded, not proved.",
     bounded=[],
 )
+
+PROPS["C11"] = dict(
+    level="proof",
+    modules=["contracts.c_psbt_combine"],
+    not_decided=["sign/finalize never change the unsigned transaction; PsbtView agreement; role sequences"],
+    assumptions=["copy.deepcopy returns a structure sharing nothing mutable with its argument"],
+    bounded=[],
+)
